@@ -369,13 +369,15 @@ package argmapper
 //@   assigns  Func, argBuilder, NamedM, NamedSubM, TypedM, TypedSubM, []*Func, []ConverterGenFunc, ValueSet, Value, valueInternal, []*Value, map[string]*Value, map[reflect.Type]*Value, map[string]string, []string, []interface{}, reflect.StructField, []reflect.StructField, vpos, rvstore, rvfresh
 //@   modifies nothing
 
+//@ ghost builderRest(a *argBuilder) bool = a.logger == old(a.logger) && a.named == old(a.named) && a.namedSub == old(a.namedSub) && a.typed == old(a.typed) && a.typedSub == old(a.typedSub) && a.redefining == old(a.redefining) && a.filterInput == old(a.filterInput) && a.filterOutput == old(a.filterOutput) && a.funcName == old(a.funcName) && a.funcOnce == old(a.funcOnce)
 // Converter(fs...): every element must be a function (NewFunc); the new Funcs are appended
 //@ func Converter$1
 //@   requires a != nil
 //@   ensures  [non-function-is-an-error] imp(exists(j, int, 0 <= j && j < len(fs) && (fs[j] == nil || kindof(dyntype(fs[j])) != 19)), result != nil)
+//@   ensures  [only-converters-change] builderRest(a) && a.convGens == old(a.convGens) && (sref(a.convs) == sref(old(a.convs)) || fresh(a.convs))
 //@   assigns  Func, argBuilder, NamedM, NamedSubM, TypedM, TypedSubM, []*Func, []ConverterGenFunc, ValueSet, Value, valueInternal, []*Value, map[string]*Value, map[reflect.Type]*Value, map[string]string, []string, []interface{}, reflect.StructField, []reflect.StructField, vpos, rvstore, rvfresh
 //@   modifies a, a.convs
-//@   loop 1 invariant a != nil
+//@   loop 1 invariant a != nil && builderRest(a) && a.convGens == old(a.convGens) && (sref(a.convs) == sref(old(a.convs)) || fresh(a.convs))
 //@   loop 1 invariant forall(j, int, imp(0 <= j && j < idx1, fs[j] != nil && kindof(dyntype(fs[j])) == 19))
 // like funcFrame, but the converter list of builder a itself may change
 //@ ghost funcFrame2(a *argBuilder) bool = kept(Func, NamedM, NamedSubM, TypedM, TypedSubM, argBuilder.logger, argBuilder.named, argBuilder.namedSub, argBuilder.typed, argBuilder.typedSub, argBuilder.convGens, argBuilder.redefining, argBuilder.filterInput, argBuilder.filterOutput, argBuilder.funcName, argBuilder.funcOnce) && forall(x, *argBuilder, imp(old(allocated(x)) && x != a, x.convs == old(x.convs)))
